@@ -96,6 +96,11 @@ LOCATION_NAMES = ["home", "x", "Flughafen München", "Zürich", "Düsseldorf-Loh
                   "a" * 11 + "é", "a" * 60, "🛬 strip 🛫", "Łódź Lublinek Łł", "e\u0301e\u0301e\u0301e\u0301e\u0301e\u0301e\u0301", "tab\there", "-", "1"]
 
 
+def idx_of(tag):
+    t = tag.rsplit("#", 1)[-1]
+    return int(t) if t.isdigit() else 0
+
+
 def run_session(col, binpath, rng, tag, scratch, n_events):
     lat, lon = rng.choice([(52.0, 4.0), (0.0, 0.0), (-33.9, 151.2), (89.0, 0.0), (40.0, 179.9)])
     # the command line accepts any number as receiver position: one session in eight gets a
@@ -106,6 +111,8 @@ def run_session(col, binpath, rng, tag, scratch, n_events):
         lat, lon = 52.0, 4.0
     n_air = rng.choice([0, 0, 1, 3, 10, 40])
     traffic = rng.choice(["stopped", "running"])
+    if idx_of(tag) % 9 == 4:
+        traffic = "flood"  # a stream without line ends, a chunk every 4 ms, for the whole session
     opts = []
     # expiry thresholds from "at once" to "never" (the largest values a u64 holds)
     ft = rng.choice([None, None, 0, 1, 0, 1, 18446744073709551615, 9223372036854775808, 4294967296])
@@ -148,6 +155,8 @@ def run_session(col, binpath, rng, tag, scratch, n_events):
             plan.append(("send", rng.choice(lines) if k % 6 else rng.choice(junk)))
             la0, lo0 = enc.destination(la0, lo0, 90.0, 0.8)
             plan.append(("send", enc.line(enc.long_frame(17, 5, 0x4A0000, enc.me_airpos(11, 30000, la0, lo0, k % 2 == 1)))))
+    if traffic == "flood":
+        plan.append(("flood", 150.0))
     plan.append(("sleep", 120))
     events = gen_events(rng, n_events, rows, cols)
     quit_how = rng.choice(["q", "CtrlC"])
